@@ -110,8 +110,18 @@ def scenario_case(ctx, case):
         kw['initial_version'] = spell(tuple(default), names) \
             if default[0] in names or default[1] == 'num' else default[0]
     host, port = case.get('host', 'localhost'), case.get('port', 25565)
+    # token: True | 'late_name' | 'late_profile' - the token is
+    # authenticated (or re-authenticated as another account) after the
+    # Connection was built around it and before connect(): the profile that
+    # counts is the one the token holds when the login starts
     token = make_token('Profile_' + case.get('username', 'u')) \
         if case.get('token') else None
+    late = case.get('token') if isinstance(case.get('token'), str) else None
+    if late == 'late_name':
+        token.profile.name = 'Early_account'
+    elif late == 'late_profile':
+        from minecraft.authentication import Profile
+        token.profile = Profile()
     latest = max(aset, key=rank.get)
     dflt = latest if default is None else default[0]
     reply = case['reply']
@@ -158,6 +168,13 @@ def scenario_case(ctx, case):
             return
         entry = case['entry']
         hs, hp = case.get('hs', 'fn'), case.get('hp', 'false')
+        if late == 'late_name':
+            token.profile.name = 'Profile_' + case.get('username', 'u')
+            ctx.label('token_profile_set_after_construction')
+        elif late == 'late_profile':
+            token.profile = Profile(id_='1234', name='Profile_' +
+                                    case.get('username', 'u'))
+            ctx.label('token_profile_set_after_construction')
         try:
             if entry == 'status':
                 conn.status(
@@ -431,7 +448,8 @@ def scenario_strategy():
         'hp': st.sampled_from(['default', 'fn', 'false']),
         'host': hosts, 'port': st.one_of(st.integers(1, 65535),
                                          st.sampled_from([1, 25565, 65535])),
-        'token': st.booleans(),
+        'token': st.sampled_from([False, False, True, 'late_name',
+                                  'late_profile']),
         'username': st.sampled_from(['u', 'Steve', 'x' * 16]),
         'as_set': st.booleans()})
 
@@ -468,9 +486,10 @@ def t_every_protocol(ctx, lo, hi):
                              else [(sup[6], 'num')]),
                             'default': None, 'reply': reply,
                             'entry': 'connect', 'username': 'u'})
-        scenario_case(ctx, {'allowed': [(p, 'num')], 'default': None,
-                            'reply': reply, 'entry': 'connect',
-                            'username': 'u', 'token': True})
+        for tk in (True, 'late_name', 'late_profile'):
+            scenario_case(ctx, {'allowed': [(p, 'num')], 'default': None,
+                                'reply': reply, 'entry': 'connect',
+                                'username': 'u', 'token': tk})
         # one allowed VERSION spelled more than once (two of its names, a
         # name and its number, the number twice; list or set): still a
         # single allowed version, so no status query
